@@ -186,15 +186,16 @@ type opState struct {
 }
 
 type world struct {
-	sc       *proto.Scenario
-	objs     map[int]*object
-	objOrder []int
-	ops      [][]*opState
-	backends []any
-	viol     []proto.Violation
-	stats    proto.Stats
-	log      strings.Builder
-	hlslPrev map[int]any // per task: previous *hlsl.Options (ReuseOptions)
+	sc        *proto.Scenario
+	objs      map[int]*object
+	objOrder  []int
+	ops       [][]*opState
+	backends  []any
+	viol      []proto.Violation
+	violCount map[string]int
+	stats     proto.Stats
+	log       strings.Builder
+	hlslPrev  map[int]any // per task: previous *hlsl.Options (ReuseOptions)
 	// (task, op) pairs that ran since the last invariant evaluation
 	sinceMod, sinceGlob []proto.Ref
 }
@@ -221,12 +222,23 @@ func culprit(since []proto.Ref, t, op int, kind string) (int, int, string, []pro
 	return t, op, "ambiguous", append([]proto.Ref(nil), since...)
 }
 
-const maxViolations = 24
+// Caps are per class, so that a flood of one kind of event can never crowd
+// out the record of a module alteration (the judge needs every I-MUT event to
+// attribute downstream mismatches to their root cause).
+var violationCaps = map[string]int{"I-MUT": 96, "I-GLOBAL": 12, "I-RACE": 12, "I-OPT": 12, "O-ALIAS": 12}
 
 func (w *world) addViolation(v proto.Violation) int {
-	if len(w.viol) >= maxViolations {
+	if w.violCount == nil {
+		w.violCount = map[string]int{}
+	}
+	limit, ok := violationCaps[v.Class]
+	if !ok {
+		limit = 12
+	}
+	if w.violCount[v.Class] >= limit {
 		return -1
 	}
+	w.violCount[v.Class]++
 	w.viol = append(w.viol, v)
 	return len(w.viol) - 1
 }
